@@ -83,7 +83,8 @@ def step (mthr : Nat) (pp1 : List Nat → List Nat → Nat → Nat → List Nat 
   let okI := decide (m + (5 * m + 220) ≤ s.xp.length)
   let p := bnm1 mthr pp1 m u.1 r.1
   let x1 := store s.xp 0 p.1
-  -- :97 mpn_sub_1 (xp + m, xp, rn - (m - newrn), 1): size >= 1
+  -- :97 mpn_sub_1 (xp + m, xp, rn - (m - newrn), 1): size >= 1.  (Its output xp[m ..) is never read: the k limbs of X
+  -- that mpn_mullow_n takes are xp[rn .. newrn) with newrn <= m — `step_inv` uses only `x2.take m = p`.)
   let k1 := rn - (m - newrn)
   let okS := decide (m - newrn < rn)
   let s1 := load x1.1 0 k1
